@@ -157,3 +157,59 @@ def oracle_aerostruct(R, tier, seed):
         if bad: _fail(O, "C04:AerostructPoint:%s-half-vs-full" % sorted(bad)[0], desc, errors=bad)
         else: O["ok"] += 1
         R.mark("c04as", model, relief)
+
+
+def oracle_geometry(R, tier, seed):
+    """the same design variables applied to a half-span surface and to its full-span equivalent give mirror-image meshes
+    (left-half meshes with flat chord lines: the recorded findings F05 / F06 concern right halves and cambered sections)"""
+    import warnings
+    import openmdao.api as om
+    from openaerostruct.geometry.geometry_group import Geometry
+    from openaerostruct.geometry.utils import generate_mesh
+    O = R.oracle("Geometry.half-vs-full")
+    rng = gen.stable_rng(seed, "c04geom")
+    n = 8 if tier == "quick" else 40
+    for it in range(n):
+        num_x = int(rng.choice([2, 3])); num_y = int(rng.choice([5, 7, 9]))
+        d = {"num_x": num_x, "num_y": num_y, "wing_type": "rect", "span": float(rng.uniform(6, 20)), "root_chord": float(rng.uniform(0.8, 3)), "span_cos_spacing": float(rng.choice([0.0, 1.0, 0.5]))}
+        with warnings.catch_warnings():
+            warnings.simplefilter("ignore")
+            full = generate_mesh(dict(d, symmetry=False)); half = generate_mesh(dict(d, symmetry=True))
+        dv = {}
+        which = ["taper", "sweep", "dihedral", "span", "chord_cp", "twist_cp", "xshear_cp", "zshear_cp"]
+        chosen = [w for w in which if rng.random() < 0.5] or ["taper"]
+        if it < len(which): chosen = [which[it]]            # every variable once on its own
+        for w in chosen:
+            if w == "taper": dv[w] = float(rng.uniform(0.3, 1.4))
+            elif w == "sweep": dv[w] = float(rng.uniform(-15, 35))
+            elif w == "dihedral": dv[w] = float(rng.uniform(-5, 12))
+            elif w == "span": dv[w] = float(d["span"] * rng.uniform(0.6, 1.5))
+            else:
+                # control-point variables: only constant distributions are comparable (a 3-point B-spline over the half span and
+                # a 5-point palindromic one over the full span are different curves - not a property of the package)
+                c = float(rng.uniform(0.7, 1.3) if w == "chord_cp" else rng.uniform(-3, 3) * (1.0 if w == "twist_cp" else 0.2))
+                dv[w] = (np.full(3, c), np.full(5, c))
+        meshes = {}
+        for label, m, sym in (("half", half, True), ("full", full, False)):
+            s = {"name": "w", "mesh": m, "symmetry": sym, "S_ref_type": "wetted"}
+            for k, v in dv.items():
+                s[k] = v[0 if sym else 1] if isinstance(v, tuple) else v
+            p = om.Problem(reports=False); p.model.add_subsystem("g", Geometry(surface=s), promotes=["*"])
+            with warnings.catch_warnings():
+                warnings.simplefilter("ignore")
+                p.setup(); p.run_model()
+            meshes[label] = np.array(p.get_val("mesh")).copy()
+        O["cases"] += 1
+        ny = half.shape[1]
+        left = meshes["full"][:, :ny]
+        mir = meshes["full"][:, ::-1].copy(); mir[:, :, 1] *= -1
+        scale = np.abs(meshes["full"]).max()
+        e1 = float(np.abs(meshes["half"] - left).max() / scale); e2 = float(np.abs(mir - meshes["full"]).max() / scale)
+        O["worst"] = max(O["worst"], e1, e2)
+        desc = {"mesh": d, "design_variables": {k: (v[0].tolist() if isinstance(v, tuple) else v) for k, v in dv.items()}, "seed": seed, "it": it}
+        bad = {}
+        if e1 > 1e-10: bad["half mesh != left half of the full-span mesh"] = e1
+        if e2 > 1e-10: bad["full-span mesh not mirror symmetric"] = e2
+        if bad: _fail(O, "C04:Geometry(%s):half-vs-full" % "+".join(sorted(dv)), desc, errors=bad)
+        else: O["ok"] += 1
+        R.mark("c04g", it)
